@@ -77,6 +77,8 @@ Definition flat_obs (o : obs) : list tok :=
   | OEmit k w => [TS "emit"; TN k; TN w]
   | OPAct k => [TS "pact"; TN k]
   | OPBuiltin c => [TS "pbuiltin"; TN c]
+  | OFail => [TS "fail"]
+  | OClock t => [TS "clock"; TN t]
   end.
 
 Fixpoint ins_hist (e : nat * list nat) (l : list (nat * list nat)) :=
@@ -91,6 +93,7 @@ Definition flat_st (s : st) : list tok :=
   ++ TS "queue" :: List.concat (map (fun e => [TS (e_type e); TN (e_tag e)]) (s_queue s))
   ++ [TS "status"; TN (status_code (s_status s))]
   ++ TS "output" :: flat_optz (s_output s)
+  ++ TS "armed" :: map TN (sort_nat (map p_owner (s_pending s)))
   ++ TS "log" :: List.concat (map flat_obs (rev (s_log s))).
 
 (* `probe`: the harness calls can(ev) before each send and records the answer *)
@@ -98,50 +101,71 @@ Definition probe_can (probe : bool) (m : machine) (ev : event) (s : st) : st :=
   if probe then logo (OCan (can m (s_cfg s) (s_ctx s) ev)) s else s.
 
 (* K-macro-s: snapshots after start() and after each send() *)
-(* an operation is a list of events: one event = send(ev), several = send_events([...]) *)
+(* an operation is (t, events): let the virtual clock reach t (0 = leave it), then send the events
+   (one event = send(ev), several = send_events([...]), none = just wait) *)
 Definition probe_op (probe : bool) (m : machine) (op : list event) (s : st) : st :=
   match op with [ev] => probe_can probe m ev s | _ => s end.
-Fixpoint sync_snaps (probe : bool) (m : machine) (s : st) (ops : list (list event)) : list (list tok) :=
-  match ops with
-  | [] => []
-  | op :: r => let s' := catch (sync_send_events m op) (probe_op probe m op s) in flat_st s' :: sync_snaps probe m s' r
-  end.
-Definition sync_case (probe : bool) (m : machine) (cx : ctx) (evs : list (list event)) : list (list tok) :=
-  let s0 := catch (sync_start m) (st_init cx) in flat_st s0 :: sync_snaps probe m s0 evs.
+Definition idle_fuel : nat := 60.
+Definition timeout_snap : list (list tok) := [[TS "TIMEOUT"]].
 
-(* K-macro-a: snapshots at quiescence after start() and after each send() *)
-Definition async_fuel : nat := 400.
-Fixpoint async_snaps (probe : bool) (m : machine) (s : st) (ops : list (list event)) : list (list tok) :=
+Fixpoint sync_snaps (probe : bool) (m : machine) (s : st) (ops : list (nat * list event)) : list (list tok) :=
   match ops with
   | [] => []
-  | op :: r => match async_loop async_fuel m (fold_left (fun s' ev => async_send ev s') op (probe_op probe m op s)) with
-               | (s', false) => flat_st s' :: async_snaps probe m s' r
-               | (_, true) => [[TS "TIMEOUT"]]
-               end
+  | (t, op) :: r =>
+      match (if Nat.eqb t 0 then (s, false) else advance_idle idle_fuel Sync m t s) with
+      | (_, true) => timeout_snap
+      | (s1, false) =>
+          let s' := match op with [] => s1 | _ => catch (sync_send_events m op) (probe_op probe m op s1) end in
+          flat_st s' :: sync_snaps probe m s' r
+      end
   end.
-Definition async_case (probe : bool) (m : machine) (cx : ctx) (evs : list (list event)) : list (list tok) :=
+Definition sync_case (probe : bool) (m : machine) (cx : ctx) (ops : list (nat * list event)) : list (list tok) :=
+  let s0 := catch (sync_start m) (st_init cx) in flat_st s0 :: sync_snaps probe m s0 ops.
+
+(* K-macro-a: snapshots at quiescence after start() and after each operation *)
+Definition async_fuel : nat := 400.
+Fixpoint async_snaps (probe : bool) (m : machine) (s : st) (ops : list (nat * list event)) : list (list tok) :=
+  match ops with
+  | [] => []
+  | (t, op) :: r =>
+      match (if Nat.eqb t 0 then (s, false) else advance_idle idle_fuel Async m t s) with
+      | (_, true) => timeout_snap
+      | (s1, false) =>
+          match async_loop async_fuel m (fold_left (fun s' ev => async_send ev s') op (probe_op probe m op s1)) with
+          | (s', false) => flat_st s' :: async_snaps probe m s' r
+          | (_, true) => timeout_snap
+          end
+      end
+  end.
+Definition async_case (probe : bool) (m : machine) (cx : ctx) (ops : list (nat * list event)) : list (list tok) :=
   match async_loop async_fuel m (catch (async_start m) (st_init cx)) with
-  | (s0, false) => flat_st s0 :: async_snaps probe m s0 evs
-  | (_, true) => [[TS "TIMEOUT"]]
+  | (s0, false) => flat_st s0 :: async_snaps probe m s0 ops
+  | (_, true) => timeout_snap
   end.
 
 Definition snaps_eqb := list_eqb toks_eqb.
+Fixpoint has_tie (t : list tok) : bool :=
+  match t with
+  | TS a :: ((TN 9 :: _) as r) => String.eqb a "cut" || has_tie r
+  | _ :: r => has_tie r
+  | [] => false
+  end.
 Definition is_timeout (t : list tok) : bool := match t with [TS s] => String.eqb s "TIMEOUT" | _ => false end.
 (* a macro case: machine, engine, runs = (initial ctx, events, implementation snapshots).
    Result: (indices of runs that differ, indices of runs on which the MODEL ran out of fuel -
    inconclusive: the harness counts them, they are not disagreements). *)
-Fixpoint check_runs (i : nat) (f : ctx -> list (list event) -> list (list tok)) (runs : list (ctx * list (list event) * list (list tok)))
+Fixpoint check_runs (i : nat) (f : ctx -> list (nat * list event) -> list (list tok)) (runs : list (ctx * list (nat * list event) * list (list tok)))
   : list nat * list nat :=
   match runs with
   | [] => ([], [])
   | r :: rest =>
       let mine := f (fst (fst r)) (snd (fst r)) in
       let (bad, tmo) := check_runs (S i) f rest in
-      if existsb is_timeout mine then (bad, i :: tmo)
+      if existsb is_timeout mine || existsb has_tie mine then (bad, i :: tmo)
       else if snaps_eqb mine (snd r) then (bad, tmo)
       else (i :: bad, tmo)
   end.
-Definition check_macro (eng : engine) (probe : bool) (m : machine) (runs : list (ctx * list (list event) * list (list tok))) :=
+Definition check_macro (eng : engine) (probe : bool) (m : machine) (runs : list (ctx * list (nat * list event) * list (list tok))) :=
   check_runs 0 (match eng with Async => async_case | _ => sync_case end probe m) runs.
 
 (* K-pure: initial_transition, then transition() threaded through the returned snapshots *)
